@@ -342,30 +342,36 @@ func runCases(r *Result, cases []*Case, impls [][][]string, withModel bool) {
 	models := map[string][][][]string{}
 	if withModel {
 		// the model driver is run in parallel on chunks of the cases, for both index instantiations
+		// heavy cases tend to be neighbours in the list (directed generators come first): deal the
+		// cases out round-robin so that every driver process gets its share of them
 		type job struct {
-			index    string
-			from, to int
-			res      [][][]string
-			err      error
+			index string
+			idx   []int
+			res   [][][]string
+			err   error
 		}
 		var jobs []*job
-		chunk := (len(cases) + 7) / 8
-		if chunk < 1 {
-			chunk = 1
+		nchunks := 12
+		if len(cases) < nchunks {
+			nchunks = len(cases)
 		}
 		for _, index := range []string{"flat", "chain", "phys"} {
-			for from := 0; from < len(cases); from += chunk {
-				to := from + chunk
-				if to > len(cases) {
-					to = len(cases)
+			for k := 0; k < nchunks; k++ {
+				j := &job{index: index}
+				for i := k; i < len(cases); i += nchunks {
+					j.idx = append(j.idx, i)
 				}
-				jobs = append(jobs, &job{index: index, from: from, to: to})
+				jobs = append(jobs, j)
 			}
 		}
 		done := make(chan *job)
 		for _, j := range jobs {
 			go func(j *job) {
-				j.res, j.err = runModel(cases[j.from:j.to], j.index)
+				sub := make([]*Case, len(j.idx))
+				for n, i := range j.idx {
+					sub[n] = cases[i]
+				}
+				j.res, j.err = runModel(sub, j.index)
 				done <- j
 			}(j)
 		}
@@ -379,7 +385,9 @@ func runCases(r *Result, cases []*Case, impls [][][]string, withModel bool) {
 			if models[j.index] == nil {
 				models[j.index] = make([][][]string, len(cases))
 			}
-			copy(models[j.index][j.from:j.to], j.res)
+			for n, i := range j.idx {
+				models[j.index][i] = j.res[n]
+			}
 		}
 	}
 	seen := map[string]bool{}
